@@ -23,6 +23,8 @@ pub const O_C11: u32 = 1 << 12;
 pub const O_C11POOL: u32 = 1 << 13;
 /// every Reliable packet delivered within T_live of its submission (runs whose traffic lasts until the horizon); reported under the property named by the scenario tag
 pub const O_DEADLINE: u32 = 1 << 14;
+/// C14 on the link: RTT samples are ages of freshly acknowledged frames
+pub const O_C14RTT: u32 = 1 << 15;
 
 pub const WITNESSES: &[&str] = &[
     "resent fragment delivered", "duplicate frame delivered", "corrupted frame rejected by Frame::read", "packet id wrapped (20 bit)",
@@ -125,6 +127,7 @@ pub fn eval_oracles(spec: &LwSpec, tr: &Trace) -> Vec<Violation> {
     if o & O_LIVE != 0 { v.extend(oracle_c02_live(si, tr, "C02.live")); }
     if o & O_C11 != 0 { v.extend(oracle_c11(si, tr, spec.probe_round)); }
     if o & O_C11POOL != 0 { v.extend(oracle_c02_live(si, tr, "C11.stalled")); }
+    if o & O_C14RTT != 0 { v.extend(oracle_rtt_samples(tr)); }
     if o & O_DEADLINE != 0 { v.extend(oracle_deadline(si, tr, &format!("{}.live", &spec.tag[..3]), 300_000)); }
     v
 }
